@@ -654,6 +654,7 @@ func init() {
 		Rule:             "built with the Go race detector (GORACE=halt_on_error=0 log_path=...; reports counted and de-duplicated by the innermost zlint frame pair, exit code not trusted; a deliberate canary race proves detector, log and parser work in every run). In every concurrent phase the linting goroutines are released by ONE barrier and joined by ONE Wait with NO monitor-side synchronisation in between (static partition of the work, per-item result slots, no shared counters, queues or watchdog ticks): every atomic or mutex the monitor would touch between two lint calls is a happens-before edge that hides races between calls that did not overlap in real time, so with it detection would depend on machine load; without it all calls of different goroutines are unordered for the detector whatever the schedule. W0 (cold start, in each worker process, before any other linting): G in {8,32,4,64} goroutines lint every seed in a worker-specific order, so lazily initialised state is first touched concurrently; baselines are computed afterwards and compared. W1: G in {2,8,32,128} goroutines lint their own parse of each object against shared registries (global, nil, filtered+configured) while 4 reader goroutines hammer Names/Sources/ByName/BySource/Lints/Filter/WriteJSON/DefaultConfiguration, at GOMAXPROCS in {1,2,4,16}; every result is compared with the sequential baseline. W2: for every lint, 16 goroutines execute that same lint on their own parsed objects (a lint counts when >= 2 goroutines executed it unordered). W3: concurrent Filter + lint on the fresh registries. W4: the directed families (code paths the corpus does not drive) are linted concurrently FIRST and alone afterwards. evaluations = concurrent lint executions; distinct_nontrivial = lints executed by several goroutines unordered with respect to each other.",
 		Assumptions:      []string{"the race detector sees only executed code", "SetConfiguration concurrent with linting is a write the property does not include and is not exercised"},
 		Setup:            c10Setup,
+		Aux:              map[string]func(c *mon.Ctx){"volume": c10VolumeAux},
 		WorkerEnv: func(c *mon.Ctx, work string) []string {
 			return []string{"GORACE=halt_on_error=0 exitcode=0 log_path=" + filepath.Join(work, "race.log"), "GOMAXPROCS=8"}
 		},
@@ -726,6 +727,7 @@ func init() {
 			if r.Counters["w3_filter_and_lint"] < 100 {
 				gates = append(gates, "W3 observed too little")
 			}
+			gates = append(gates, c10VolumePhase(c, r, ev)...)
 			return gates
 		},
 	})
